@@ -2,7 +2,7 @@
 
 THEOREM_MODULES = ["Hcl.Theorems.C11", "Hcl.Tie.Lexer", "Hcl.Tie.Grammar", "Hcl.Tie.Preamble"]
 THEOREMS = {"Hcl.Theorems.C11": ["C11_model_tiers_documented", "C11_grammar_tiers_documented", "C11_grammar_ops_documented",
-                                 "C11_preamble_values"]}
+                                 "C11_preamble_values", "C11_binary", "C11_hex", "C11_decimal", "C11_digit"]}
 
 RULE = ("S-PARSE: every ordered pair of binary operators in both groupings, every unary operator and 'in' against every binary "
         "operator, then random triples and random type-directed expressions: each tree is written (a) with the fewest "
